@@ -151,9 +151,10 @@ def walkCols (g : Globals) (tb : String) (up : Bool) : List Column → List Colu
 
 /-- the `MigrateAddAction` branch of `MigrationColumnUp` -/
 def createTableStmts (g : Globals) (t : Table) : M (List Stmt) := do
-  let c0 ← getIdx "MigrationColumnUp: t.Columns[0]" t.cols 0
+  -- `maxIdent` starts from the first column's name, or 0 for a table without columns
+  let c0len := ((t.cols[0]?).map (·.name.utf8ByteSize)).getD 0
   let printed := t.cols.filter (fun c => c.action == .add || c.action == .modify || c.action == .rename)
-  let maxIdent := printed.foldl (fun m c => max m c.name.utf8ByteSize) c0.name.utf8ByteSize
+  let maxIdent := printed.foldl (fun m c => max m c.name.utf8ByteSize) c0len
   let defs := printed.map (fun c => c.colDef false)
   let comments := t.cols.flatMap (fun c => c.commentUp g t.name)
   pure (Stmt.createTable t.name maxIdent defs [] :: comments)
